@@ -405,8 +405,14 @@ func (env *LEnv) load(ctx context.Context, exprs []*LVal) *LVal {
 	// issued the load.  That form keeps running at its own call expression:
 	// an error it raises afterwards is located there, not inside the loaded
 	// source.
-	loc := env.loc
-	defer func() { env.loc = loc }()
+	// Only a nested load restores: the outermost load of an evaluation has
+	// no form to return to, and putting back what it found would carry the
+	// location an earlier, unrelated evaluation left on env over to the next
+	// one.
+	if env.Runtime.evalDepth > 1 {
+		loc := env.loc
+		defer func() { env.loc = loc }()
+	}
 
 	ret := Nil()
 	for _, expr := range exprs {
